@@ -406,6 +406,10 @@ def render_reads_only(ctx, pkg, rule):
 
 def _r6(ctx, pkg):
     render_reads_only(ctx, pkg, "R7")
+    # "... or is refused with an error": the renderer hands rateexpr()'s refusal on -- the expressions it emits are exactly
+    # reac.rateexpr(..) of every reaction, nothing catches and substitutes (shared with C06.R1)
+    from .c06 import _r1 as assignment_rule
+    ctx.absorb(assignment_rule, "R8")
     fn = pkg.method("Network", "export")
     ctx.saw(NET, "Network.export")
     src = ast.unparse(fn)
@@ -477,6 +481,7 @@ def _r6(ctx, pkg):
 
 
 MUTANTS = [
+    {"name": "renderer-swallows-refusal", "file": "naunet/templateloader.py", "old": "            rateexprs = [reac.rateexpr() for reac in reactions]", "new": "            rateexprs = []\n            for reac in reactions:\n                try:\n                    rateexprs.append(reac.rateexpr())\n                except RuntimeError:\n                    rateexprs.append('0.0')", "rules": ["R8"]},
     {"name": "render-drops-duplicates", "file": "naunet/console/commands/render.py", "old": '        patchname = self.option("patch")\n', "new": '        if dupidx:\n            net.remove_reaction(dupidx)\n        patchname = self.option("patch")\n', "rules": ["R7"]},
     {"name": "export-writes-only-new-file", "file": NET, "old": '        if os.path.exists(reaction_file) and not overwrite:\n            logger.warning("Reaction file exists! Stop exporting!")\n            return\n\n        self.write(reaction_file, "naunet")\n',
      "new": '        if not os.path.exists(reaction_file):\n            self.write(reaction_file, "naunet")\n\n        elif not overwrite:\n            logger.warning("Reaction file exists! Stop exporting!")\n            return\n', "rules": ["R6"]},
